@@ -187,6 +187,104 @@ theorem parse_header_determined (o : Oracle) (d1 d2 : Bytes) (m1 m2 : Message)
   rfl
 
 
+/-! ## the AAD determines the pair (protected text, aad text) -/
+
+theorem splitDot_nodot (d a b : Bytes) (h : splitDot d = some (a, b)) : dot ∉ a := by
+  induction d generalizing a b with
+  | nil => simp [splitDot] at h
+  | cons c t ih =>
+    simp only [splitDot] at h
+    by_cases hc : (c == dot) = true
+    · simp only [hc, if_true, Option.some.injEq, Prod.mk.injEq] at h
+      rw [← h.1]; simp
+    · simp only [hc, Bool.false_eq_true, if_false] at h
+      cases hs : splitDot t with
+      | none => rw [hs] at h; simp at h
+      | some p =>
+        obtain ⟨a', b'⟩ := p
+        rw [hs] at h
+        simp only [Option.some.injEq, Prod.mk.injEq] at h
+        have := ih a' b' hs
+        rw [← h.1]
+        intro hm
+        cases hm with
+        | head => simp at hc
+        | tail _ hm' => exact this hm'
+
+theorem splitDot_append' (a b : Bytes) (h : dot ∉ a) : splitDot (a ++ dot :: b) = some (a, b) := by
+  induction a with
+  | nil => simp [splitDot]
+  | cons c t ih =>
+    have hc : (c == dot) = false := by
+      have : c ≠ dot := fun e => h (by simp [e])
+      simpa using this
+    have ht : dot ∉ t := fun e => h (by simp [e])
+    simp [splitDot, hc, ih ht]
+
+/-- RFC 7516 §5.1 step 14: AAD = ASCII(protected) or ASCII(protected ‖ '.' ‖ aad) — with an EMPTY protected header and
+    a JWE AAD that is '.' ‖ aad.  Because '.' is not a base64url character this encoding is injective: the AAD determines
+    the pair (received protected text, received aad text).  So a message whose parameters were moved out of the
+    protected header (protected text turned into the `aad` member, an empty `protected`, …) has another AAD. -/
+theorem authData_injective (m1 m2 : Message) (h1 : dot ∉ m1.b64protected) (h2 : dot ∉ m2.b64protected)
+    (h : authData m1 = authData m2) : m1.b64protected = m2.b64protected ∧ m1.b64aad = m2.b64aad := by
+  unfold authData at h
+  have e0 : ∀ l : Bytes, (l.length == 0) = true → l = [] := by
+    intro l hl; cases l <;> simp_all
+  by_cases c1 : (m1.b64aad.length == 0) = true <;> by_cases c2 : (m2.b64aad.length == 0) = true
+  · simp only [c1, c2, if_true] at h
+    exact ⟨h, by rw [e0 _ c1, e0 _ c2]⟩
+  · simp only [c1, c2, if_true, Bool.false_eq_true, if_false] at h
+    exact absurd (by rw [h]; simp [dot]) h1
+  · simp only [c1, c2, if_true, Bool.false_eq_true, if_false] at h
+    exact absurd (by rw [← h]; simp [dot]) h2
+  · simp only [c1, c2, Bool.false_eq_true, if_false] at h
+    have s1 := splitDot_append' m1.b64protected m1.b64aad h1
+    have s2 := splitDot_append' m2.b64protected m2.b64aad h2
+    have hd : (46 : UInt8) = dot := rfl
+    rw [hd] at h
+    rw [h, s2] at s1
+    simp only [Option.some.injEq, Prod.mk.injEq] at s1
+    exact ⟨s1.1.symm, s1.2.symm⟩
+
+/-- the received protected text of a message that came out of the compact parser contains no '.' -/
+theorem parse_protected_nodot (o : Oracle) (d : Bytes) (m : Message) (h : (parse d).run o = .ok m) :
+    dot ∉ m.b64protected := by
+  unfold parse at h
+  split at h <;> try (simp at h; done)
+  rename_i a1 d1 hs
+  have hn := splitDot_nodot d a1 d1 hs
+  split at h <;> try (simp at h; done)
+  split at h <;> try (simp at h; done)
+  split at h <;> try (simp at h; done)
+  obtain ⟨_, _, h⟩ := PO.run_bind_eq_ok _ _ _ _ h
+  obtain ⟨_, _, h⟩ := PO.run_bind_eq_ok _ _ _ _ h
+  obtain ⟨_, _, h⟩ := PO.run_bind_eq_ok _ _ _ _ h
+  obtain ⟨_, _, h⟩ := PO.run_bind_eq_ok _ _ _ _ h
+  obtain ⟨_, _, h⟩ := PO.run_bind_eq_ok _ _ _ _ h
+  obtain ⟨_, _, h⟩ := PO.run_bind_eq_ok _ _ _ _ h
+  obtain ⟨_, _, h⟩ := PO.run_bind_eq_ok _ _ _ _ h
+  simp only [PO.run_pure] at h
+  cases h
+  exact hn
+
+/-- C06 for header placement: under AEAD authenticity, a message whose pair (protected text, aad text) differs from the
+    original's — parameters moved out of the protected header, the protected text re-labelled as `aad`, an emptied
+    `protected` or `aad` — does not decrypt, whatever its unprotected headers say. -/
+theorem jwe_moved_header_fails (o : Oracle) (m0 msg : Message) (hauth : OnlyAccepts o (authData m0) m0.iv m0.ciphertext m0.tag)
+    (h0 : dot ∉ m0.b64protected) (h1 : dot ∉ msg.b64protected)
+    (hmoved : msg.b64protected ≠ m0.b64protected ∨ msg.b64aad ≠ m0.b64aad) (pt : Bytes) :
+    (decrypt msg).run o ≠ .ok pt := by
+  apply jwe_modified_fails o _ _ _ _ hauth msg (Or.inl ?_)
+  intro he
+  obtain ⟨e1, e2⟩ := authData_injective msg m0 h1 h0 he
+  rcases hmoved with h | h
+  · exact h e1
+  · exact h e2
+
+/-- the two spellings a `bytes.Join`-style AAD would identify are different AADs: "protected = X" authenticates `X`,
+    "no protected header, aad = X" authenticates `.X` -/
+example : authData { b64protected := [65, 66] } = [65, 66] ∧ authData { b64aad := [65, 66] } = [46, 65, 66] := by decide
+
 /-! ## non-vacuity -/
 
 /-- a concrete oracle: the finder offers a wrapper, it unwraps to the key [1], the AEAD opens to [42],
